@@ -276,7 +276,7 @@ func describeEventsShort(evs []RefEvent) string {
 func init() {
 	register(&World{
 		Name: "limits", Level: "exploration",
-		Rule: "each evaluation draws an entry point (Read with MaxEventSize / Connection.Buffer with or without a caller buffer), a limit (default, 16 B … 128 KiB), a line ending and either an endless generator (one endless line, endless comments, endless blank lines, endless field lines) after 0-3 complete events, or a finite stream of events sized within 2 bytes of 4 KiB, 64 KiB and the limit, with or without leading blank lines; all served through a counting reader in chooser-sized chunks (1 byte … twice the limit). " +
+		Rule: "each evaluation draws an entry point (Read with MaxEventSize, possibly ranged over twice / Connection.Buffer with or without a caller buffer, with or without a maximum, on the first or the second attempt of the connection), a limit (default, 16 B … 128 KiB), a line ending and either an endless generator (one endless line, endless comments, endless blank lines, endless field lines) after 0-3 (sometimes 4-40) complete events, or a finite stream of events sized within 2 bytes of 4 KiB, 64 KiB and the limit, with or without leading blank lines; all served through a counting reader in chooser-sized chunks (1 byte … twice the limit). " +
 			"Non-trivial: every case; distinct = distinct (kind, configuration, sizes).",
 		Real:        []string{"sse.Read, ReadConfig.MaxEventSize", "Connection.Buffer + Connect (single attempt)", "internal/parser with bufio.Scanner"},
 		Stub:        []string{"counting io.Reader over an endless generator or a sized finite stream", "http.RoundTripper returning one scripted response"},
